@@ -548,8 +548,9 @@ class FnAnalysis:
                 out |= self.visit(a)
         return out
 
-    def v_lambda(self, e):
-        """creating a closure: fold the effects of its body (it may be called)"""
+    def v_lambda(self, e, call_args=None):
+        """creating a closure: fold the effects of its body (it may be called); with call_args: a
+        direct call of the closure, its parameters bound to the actual arguments"""
         lfn = self.fn.unit.fns.get(e.get("fid"))
         capmap = {}
         for c in e.get("caps", []):
@@ -579,7 +580,10 @@ class FnAnalysis:
                 self.apply_summary(self.eff.summary(sp), {(("this",),)}, [], e, capmap=capmap, lam=True)
             return {TMP}
         ls = self.eff.summary(lfn)
-        self.apply_summary(ls, {(("this",),)}, [], e, capmap=capmap, lam=True)
+        if call_args is not None:
+            self.apply_summary(ls, {(("this",),)}, call_args, e, capmap=capmap, lam="call")
+        else:
+            self.apply_summary(ls, {(("this",),)}, [], e, capmap=capmap, lam=True)
         return {TMP}
 
     def v_construct(self, e):
@@ -638,7 +642,12 @@ class FnAnalysis:
         rest = []
         for el in p[1:]:
             if el[0] == "[]":
-                if lam:
+                if lam == "call":
+                    # direct call of a local closure: its parameters are bound to the actual arguments
+                    rest.append(("[]", tuple(self.subst_cls(c, args) if c[0] in ("p", "dp") else
+                                             (("other",) if c[0] in ("var", "cap") else c)
+                                             for c in el[1])))
+                elif lam:
                     rest.append(("[]", tuple(("other",) if c[0] in ("p", "dp", "var", "cap") else c
                                              for c in el[1])))
                 else:
@@ -649,7 +658,7 @@ class FnAnalysis:
         if root[0] == "this":
             bases = this_paths
         elif root[0] == "p":
-            if lam:
+            if lam and lam != "call":
                 return set()
             bases = args[root[1]][1] if root[1] < len(args) else set()
         elif root[0] == "cap":
@@ -694,6 +703,8 @@ class FnAnalysis:
         # closures passed as arguments / assigned are assumed callable: effects folded at creation
         # and, for a closure held by a local variable, again where the variable is passed on or
         # called (that is where its body runs: position-sensitive analyses need the effects there)
+        callee0 = fn.callee(e)
+        direct_closure_call = callee0 is not None and callee0.is_lambda and obj_n is not None
         for use in ([obj_n] if obj_n is not None else []) + list(args_n):
             u = strip(use)
             while isinstance(u, dict) and u.get("k") == "call" and u.get("bn") in ("std::move", "std::forward", "std::ref", "std::cref") \
@@ -703,7 +714,7 @@ class FnAnalysis:
                 self._folding = True
                 try:
                     for lam in self.lambdas[u["d"]]:
-                        self.v_lambda(lam)
+                        self.v_lambda(lam, call_args=args if (use is obj_n and direct_closure_call) else None)
                 finally:
                     self._folding = False
         callee = fn.callee(e)
